@@ -9,7 +9,7 @@
    Concurrent calls: Redis runs each script atomically and a call touches nothing else, so
    concurrent Acquire/Release attempts are some sequence of steps; the theorems hold for all. *)
 From Coq Require Import List ZArith String Bool.
-From GZ Require Import Lib.RedisStore C19.Model C19.GenProofs C19.Proofs.
+From GZ Require Import Lib.RedisStore C19.Model C19.GenProofs C19.Proofs C19.ProofsMore.
 From GZgen Require Lua_lock Lua_del.
 Import ListNotations.
 Open Scope string_scope.
@@ -118,6 +118,57 @@ Theorem only_holder_releases : forall key s,
 Proof. exact only_holder_releases_all. Qed.
 Print Assumptions only_holder_releases.
 
+(* MUTUAL EXCLUSION AT EVERY INSTANT, ALL INTERLEAVINGS.  Take any state with pairwise distinct
+   ids and ANY history [kops] over ANY keys: Acquire / Release / SetExpire by any instances in any
+   order (= every interleaving of concurrent calls, Redis runs a script atomically), clock
+   advances forwards or backwards, foreign writes, TTL reads, faulted calls.  In the state
+   reached, no key is held by two different instances. *)
+Theorem mutex_always : forall kops s key i j li lj,
+  NoDup (ids s) ->
+  let s' := kfinal s kops in
+  nth_error (insts s') i = Some li -> nth_error (insts s') j = Some lj ->
+  held_by key s' (iid li) = true -> held_by key s' (iid lj) = true -> i = j.
+Proof. exact mutex_always_all. Qed.
+Print Assumptions mutex_always.
+
+(* SEVERAL KEYS ON ONE STORE.  In any history in which every operation names its key, what is
+   observed on key k (answers and TTL reads) is exactly the lease specification of k run on the
+   operations that concern k (its own, clock advances, SetExpire): locks on other keys do not
+   interfere.  This is the statement Check.prop_ok evaluates per key. *)
+Theorem keys_independent : forall k kops s,
+  proj_obs k kops (krun s kops) = sp_run (abs k s) (proj_ops k kops).
+Proof. exact keys_independent_all. Qed.
+Print Assumptions keys_independent.
+
+(* A STORE FAULT IS NEVER "ACQUIRED" / "RELEASED".  If the command of an Acquire (rel = false) or
+   Release (rel = true) is answered [r] by a faulty store instead of being executed, nothing
+   changes; an error reply is reported as (false, error); and whatever the reply - nil, a number,
+   any string - the call answers false, unless the reply is literally the success reply
+   ("OK" resp. 1), which no wrapper could tell from success. *)
+Theorem fault_is_never_success : forall key s i rel r l,
+  nth_error (insts s) i = Some l ->
+  fst (step key s (OFault i rel r)) = s /\
+  (forall e, r = RErr e -> snd (step key s (OFault i rel r)) = RB false true) /\
+  (forged_success rel r = false -> exists e, snd (step key s (OFault i rel r)) = RB false e).
+Proof. exact fault_step_all. Qed.
+Print Assumptions fault_is_never_success.
+
+(* THE LEASE EXPRESSION.  The model computes seconds*1000+500 in Z (the property's value) for the
+   uint32 `seconds` (SetExpire converts with uint32(): [to_uint32_in_range]); the Go expression
+   int(seconds)*millisPerSecond+tolerance is evaluated in int: it stays below 2^63, so it is exact
+   on 64-bit platforms for every uint32; it exceeds a 32-bit int from seconds = 2147484 on and a
+   uint32 from 4294967 on (seeded C19-3: Pinned.lease_in_uint32_refuted). *)
+Theorem lease_range : forall secs, 0 <= secs < 4294967296 ->
+  lease secs = secs * 1000 + 500 /\ 0 < lease secs < 2 ^ 63 /\
+  (lease secs < 2 ^ 31 <-> secs <= 2147483) /\
+  (lease secs < 2 ^ 32 <-> secs <= 4294966).
+Proof. exact lease_range_all. Qed.
+Print Assumptions lease_range.
+
+Theorem to_uint32_in_range : forall z, 0 <= to_uint32 z < 4294967296.
+Proof. exact to_uint32_range. Qed.
+Print Assumptions to_uint32_in_range.
+
 (* ---- non-vacuity: concrete histories meeting the hypotheses ---- *)
 Definition ex_key := BStr "lk".
 Definition ex_s := fst (step ex_key (init false ["idA"; "idB"; "idC"]) (OSetExpire 0 2)).
@@ -148,3 +199,14 @@ Example ex_boundary :
   run ex_key (fst (step ex_key (init true ["idA"; "idB"] ) (OSetExpire 0 2))) [OAcquire 0; OAdvance 2500; OAcquire 1] = [RB true false; RU; RB true false] /\
   run ex_key (fst (step ex_key (init false ["idA"; "idB"]) (OSetExpire 0 2))) [OAcquire 0; OAdvance 2500; OAcquire 1] = [RB true false; RU; RB false false].
 Proof. vm_compute. split; reflexivity. Qed.
+
+(* two keys, a fault and a TTL read in one history (miniredis convention) *)
+Definition ex_k2 := BStr "other key".
+Example ex_two_keys :
+  krun (init true ["idA"; "idB"; "idC"])
+       [(ex_key, OSetExpire 0 4294968); (ex_key, OAcquire 0); (ex_key, OTtl); (ex_k2, OAcquire 2); (ex_key, OAcquire 1);
+        (ex_key, OFault 1 false (RErr EConn)); (ex_key, OFault 0 true (RBulk (BStr "1"))); (ex_k2, OTtl);
+        (ex_key, OAdvance 500); (ex_k2, OAcquire 1); (ex_key, ORelease 0)]
+  = [RU; RB true false; RT (Some (Some 4294968500)); RB true false; RB false false;
+     RB false true; RB false false; RT (Some (Some 500)); RU; RB true false; RB true false].
+Proof. vm_compute. reflexivity. Qed.
